@@ -64,6 +64,14 @@ func runC04(c *Ctx) {
 	c.guard("R04-single", func() { c04Single(c, d) })
 	// a bestmove for a superseded search is one too many for the go that follows (rule of C16)
 	c.guard("R04-single", func() { r.WithAlias("R16-supersede", "R04-single", func() { c16Supersede(c, d) }) })
+	// ... and an answer belongs to the go that asked for it: a completion is tied to its search, cannot win the
+	// cleared flag (a late 'stop' after a search that ended by itself would answer a second time), is emitted by
+	// the command loop, under fresh ids (rules of C16, re-decided here)
+	c.guard("R04-single", func() {
+		r.WithAlias("R16-close-owner", "-", func() {
+			r.WithAlias("R16-stale", "R04-single", func() { c16Channels(c, d) })
+		})
+	})
 	c.guard("R04-complete", func() { c04Complete(c, d) })
 	c.guard("R04-rootpv", func() { c04RootPV(c) })
 	c.guard("R04-depth1", func() { c04Depth1(c) })
